@@ -176,6 +176,10 @@ def run(ck):
         pat = prog["params"]
         if any(p[0] != "n" for p in pat[1]):
             continue
+        # the model does not simplify (f (c a b)) -> a, so with destructuring parameters it keeps more names than the
+        # implementation rightly does: the comparison is made on programs whose functions take flat parameter lists
+        if any(q[0] != "n" for f in prog["funs"] for q in f["params"][1]):
+            continue
         t = pemodel.translate(prog)
         if t is None:
             continue
